@@ -22,7 +22,7 @@ TOL_RMS = 1e-12     # HMF: |rms(g_k) - 1|
 TOL_PCOMP = 1e-10   # pcomp: reconstruction / eigenvalues, relative to the largest matrix entry
 TOL_SUM = 1e-12     # pcomp: |sum(variance) - 1|
 TOL_PROJ = 1e-5     # pca_solve: relative normal-equation residual (eigenspectra are returned as float32)
-CHI2_SAFETY = 1e3   # computechi2: multiple of the first-order error bound eps*cond*|mm^-1||rhs|
+CHI2_SAFETY = 3e3   # computechi2: multiple of the first-order error bound eps*cond*|mm^-1||rhs|
 COND_MAX = 1e6      # computechi2: generated cond(A^T W A)
 
 
@@ -329,7 +329,7 @@ class C15(Check):
             'maxiter 0-2.  Non-trivial: computechi2 with >= 2 columns and >= 1 zero weight; pcomp with >= 2 variables; '
             'HMF with masked pixels and K >= 2; pca_solve with masked pixels and nkeep >= 2; distinct by hash of the input.')
     ASSUMPTIONS = [
-        'computechi2: tolerance per case = 1e3 * eps(working dtype) * cond(A^T W A) * |mm^-1| |A^T W b| (first-order forward '
+        'computechi2: tolerance per case = 3e3 * eps(working dtype) * cond(A^T W A) * |mm^-1| |A^T W b| (first-order forward '
         'error of an explicit-inverse normal-equation solve) + eps(b dtype) |b~| / smin; A is 2-D (N, M) as documented',
         'pcomp: at least 2 observations, no constant column in correlation/standardize mode (correlation undefined); '
         'derived == data . coefficients asserted for standardize=False only (DESIGN C15 D)',
